@@ -58,12 +58,17 @@ Theorem C05_pcc_unwrap : forall P j im c,
 Proof. exact pc_unwrap_bound. Qed.
 Print Assumptions C05_pcc_unwrap.
 
-Theorem C05_pcc_window : forall (s : Z) (m : Q), (- m <= inject_Z s <= m)%Q ->
-  pr_start 20 s m <= 15 < pr_stop 20 s m /\ 0 <= pr_start 20 s m /\ pr_stop 20 s m <= 30.
+Theorem C05_pcc_coarse_range : forall m, (0 <= m)%Q ->
+  0 <= pc_im m /\ (inject_Z (pc_im m) <= m + (1#2))%Q /\ (m - (1#2) < inject_Z (pc_im m))%Q.
+Proof. exact pc_im_spec. Qed.
+Print Assumptions C05_pcc_coarse_range.
+
+Theorem C05_pcc_window : forall (s : Z) (m : Q), (0 <= m)%Q -> (- m - (1#2) <= inject_Z s <= m + (1#2))%Q ->
+  0 <= pr_start 20 s m < pr_stop 20 s m /\ pr_stop 20 s m <= 30.
 Proof. exact pr_window. Qed.
 Print Assumptions C05_pcc_window.
 
-Theorem C05_pcc_total : forall (s : Z) (m : Q) (idx : Z), (- m <= inject_Z s <= m)%Q ->
-  0 <= idx < pr_stop 20 s m - pr_start 20 s m -> (- m <= pr_final 20 s m idx <= m)%Q.
+Theorem C05_pcc_total : forall (s : Z) (m : Q) (idx : Z),
+  0 <= idx < pr_stop 20 s m - pr_start 20 s m -> (- m - (1#20000) <= pr_final 20 s m idx <= m + (1#20000))%Q.
 Proof. exact pr_shift_bound. Qed.
 Print Assumptions C05_pcc_total.
